@@ -5,6 +5,7 @@
 From Coq Require Import ZArith List Bool Lia.
 Import ListNotations.
 Require Import PV.Lib.Bytes PV.Model.HashData PV.Spec.Rfc4880_sig PV.Proofs.HashData_lemmas.
+Require Import PV.Model.Message PV.Model.SignedMsg PV.Proofs.SignedMsg_lemmas.
 Open Scope Z_scope.
 
 Theorem C02_hashdata_eq_rfc : forall f s, wf_fields f -> wf_subject s -> kind_matches (sf_type f) s = true ->
@@ -78,3 +79,20 @@ Proof.
   split; [|vm_compute; reflexivity]. constructor; [|constructor].
   unfold wf_subp. cbn [sp_type sp_body length]. split; [lia|]. split; [vm_compute; reflexivity|]. repeat (constructor; [lia|]). constructor.
 Qed.
+
+(* ---------- signatures carried in a message (Model/SignedMsg.v, PGPMessage._signed_data after repair 9dba8e2) ---------- *)
+(* RFC 4880 5.2.4 / 5.9: a binary signature over a literal message hashes the literal's octets, then the trailer; format octet,
+   file name and time are not part of it (tie: the independent signer of tools/harness/c02.py signs exactly these octets and
+   PGPy must verify; PGPy-signed messages must verify over them under the independent verifier) *)
+Theorem C02_msg_hashdata_binary : forall f l, sf_type f = 0 -> msg_hashdata f l = Some (l_data l ++ trailer f).
+Proof. exact msg_hashdata_binary. Qed.
+Print Assumptions C02_msg_hashdata_binary.
+
+Theorem C02_msg_hashdata_octets_only : forall f l l', l_data l = l_data l' -> msg_hashdata f l = msg_hashdata f l'.
+Proof. exact msg_hashdata_octets_only. Qed.
+Print Assumptions C02_msg_hashdata_octets_only.
+
+(* before the repair a valid foreign signature on a 'u' literal that is not UTF-8 could not even be checked *)
+Example C02_msg_old_rule_raises :
+  signed_data_lit_old {| l_format := 117; l_name := []; l_mtime := 0; l_data := [255] |} = None.
+Proof. exact old_rule_raises_on_u. Qed.
